@@ -96,6 +96,8 @@ class Net(torch.nn.Module):
         # the same activation instance is also reachable through a second parent, so
         # Module.apply visits it twice (hook registration must be idempotent)
         self.head = torch.nn.Sequential(self.tanh)
+        # a float64 buffer next to float32 parameters: a call must not re-cast the model's state
+        self.register_buffer('calib', torch.tensor([1.0, 0.5], dtype=torch.float64))
         self.fail_at = None      # raise inside the k-th forward call
         self.calls = 0
 
@@ -110,9 +112,17 @@ class Net(torch.nn.Module):
         return y
 
 
-def make_model(train_mode):
+def _halve_grad(module, grad_input, grad_output):
+    return tuple(g * 0.5 if g is not None else None for g in grad_input)
+
+
+def make_model(train_mode, user_hook=False):
     torch.manual_seed(7)
     m = Net()
+    if user_hook:
+        # a full backward hook of the caller on a layer deep_lift_shap also hooks: it must still be
+        # registered and still fire afterwards (ordinary gradients are halved by it)
+        m.relu.register_full_backward_hook(_halve_grad)
     with torch.no_grad():
         m.bn.running_mean.copy_(torch.tensor([0.1, -0.2, 0.3]))
         m.bn.running_var.copy_(torch.tensor([1.5, 0.7, 1.1]))
@@ -302,10 +312,10 @@ def run_impl(inp):
     res = {'raised': False, 'hooks_left': False, 'changed': False, 'line_hit': True, 'exc': None}
     table = drivers()
     if kind == 'history':
-        shared = make_model(inp['train'])
+        shared = make_model(inp['train'], inp.get('user_hook', False))
         outs_shared, outs_fresh = [], []
         for name in inp['calls']:
-            for model, acc in ((shared, outs_shared), (make_model(inp['train']), outs_fresh)):
+            for model, acc in ((shared, outs_shared), (make_model(inp['train'], inp.get('user_hook', False)), outs_fresh)):
                 try:
                     with warnings.catch_warnings():
                         warnings.simplefilter('ignore')
@@ -313,23 +323,23 @@ def run_impl(inp):
                     acc.append(y)
                 except Exception as e:
                     acc.append(repr(type(e)))
-        res['changed'] = not deep_equal(outs_shared, outs_fresh) or not same_state(shared, make_model(inp['train']))
-        res['hooks_left'] = hook_count(shared) > 0
+        res['changed'] = not deep_equal(outs_shared, outs_fresh) or not same_state(shared, make_model(inp['train'], inp.get('user_hook', False)))
+        res['hooks_left'] = hook_count(shared) != hook_count(make_model(inp['train'], inp.get('user_hook', False)))
         if not res['changed']:
             try:
                 b1 = behaviour(shared)
-                b0 = behaviour(make_model(inp['train']))
+                b0 = behaviour(make_model(inp['train'], inp.get('user_hook', False)))
                 res['changed'] = not all(torch.equal(a, b) for a, b in zip(b0, b1))
             except Exception as e:
                 res['changed'] = True
-        if any(a and not b for a, b in zip(mode_flags(shared), mode_flags(make_model(inp['train'])))):
+        if any(a and not b for a, b in zip(mode_flags(shared), mode_flags(make_model(inp['train'], inp.get('user_hook', False))))):
             res['changed'] = True
         return res
 
-    model = make_model(inp.get('train', False))
+    model = make_model(inp.get('train', False), inp.get('user_hook', False))
     pristine = copy.deepcopy(model)
     flags0 = mode_flags(model)
-    key = str(inp.get('train', False))
+    key = str(inp.get('train', False)) + str(inp.get('user_hook', False))
     if key not in _B0:
         _B0[key] = behaviour(copy.deepcopy(pristine))
     b0 = _B0[key]
@@ -403,7 +413,7 @@ def run_impl(inp):
     # a line-level injection that lands inside a context manager's exit sequence can leave the
     # process-global grad mode off; that is an artefact of the injector, not model state
     torch.set_grad_enabled(True)
-    res['hooks_left'] = hook_count(model) > 0
+    res['hooks_left'] = hook_count(model) != hook_count(pristine)
     changed = not same_state(model, pristine)
     if not changed:
         try:
@@ -534,6 +544,13 @@ def generate(tier, rng):
     for inv in ({'invalid': 'N'}, {'invalid': 'args_len'}, {'target': 7}, {'target': -9}):
         for bs in (1, 3):
             yield {'kind': 'invalid', 'fn': 'deep_lift_shap', 'variant': dict(inv, bs=bs), 'train': True}
+    # ---- a model that carries a backward hook of the caller
+    for name in list(drivers()):
+        yield {'kind': 'forward', 'fn': name, 'k': 10 ** 6, 'train': False, 'user_hook': True}
+        yield {'kind': 'forward', 'fn': name, 'k': 2, 'train': True, 'user_hook': True}
+    for inv in ({'invalid': 'N'}, {'target': 7}):
+        yield {'kind': 'invalid', 'fn': 'deep_lift_shap', 'variant': dict(inv, bs=3), 'train': False, 'user_hook': True}
+    yield {'kind': 'reference', 'fn': 'deep_lift_shap', 'k': 1, 'variant': {'bs': 3}, 'user_hook': True}
     # ---- plain completed calls from each mode (k beyond the number of forward calls: no crash)
     for name in list(drivers()):
         for mode in (True, False, 'mixed', 'mixed2'):
@@ -544,7 +561,8 @@ def generate(tier, rng):
     for _ in range(nh):
         calls = [rng.choice(names) for _i in range(rng.randint(2, 4))]
         variant = rng.choice([None, {'invalid': 'N'}, {'target': 7}, {'bs': 1}])
-        yield {'kind': 'history', 'calls': calls, 'variant': variant, 'train': rng.choice([True, False, 'mixed', 'mixed2'])}
+        yield {'kind': 'history', 'calls': calls, 'variant': variant, 'train': rng.choice([True, False, 'mixed', 'mixed2']),
+               'user_hook': rng.random() < 0.3}
 
 
 def shrink(inp):
